@@ -41,8 +41,8 @@ def behaviours(ctx, g, cls, w, x, depth):
         h = json.loads(json.loads('"' + m.group(1) + '"'))
         letters = tuple(s[0] for s in h)
         allowed.setdefault(letters, set()).add(tuple(s[1] for s in h))
-    if len(allowed) != 9 ** depth:
-        raise MachineryError("expected %d histories from TLC, got %d" % (9 ** depth, len(allowed)))
+    if len(allowed) != 10 ** depth:
+        raise MachineryError("expected %d histories from TLC, got %d" % (10 ** depth, len(allowed)))
     return allowed
 
 
@@ -59,6 +59,8 @@ def replay_history(uni, mp, g, ps, cls, w, x, letters, name):
         valid = next(G.Base.scalarmult(k).to_bytes() for k in range(1, q) if G.Base.scalarmult(k).to_bytes() != own)
         if l == "start":
             r.start(cur, mp.stream_for(g, x))
+        elif l == "start_fail":
+            r.start(cur, mp.stream_for(g, x), fail_after=0)
         elif l == "serialize":
             r.serialize(cur)
         elif l == "restore":
@@ -153,7 +155,8 @@ def run(ctx):
         ctx.violation("history %s on %s/%s: outcome classes %s, specification allows %s" % (",".join(letters), g, cls, classes, specs),
                       {"kind": "history", "group": g, "cls": cls, "letters": letters, "observed": classes, "allowed": specs})
     # random deeper histories on the shipped sets
-    letters9 = ["start", "fin_valid", "fin_own", "fin_unknown", "fin_reflect", "fin_undec", "fin_ident", "serialize", "restore"]
+    letters9 = ["start", "fin_valid", "fin_own", "fin_unknown", "fin_reflect", "fin_undec", "fin_ident", "serialize", "restore",
+                "start_fail"]
     for ps, g in [("PEd25519", "Ed25519"), ("P1024", "I1024"), ("P2048", "I2048"), ("P3072", "I3072")]:
         uni.paramset(ps)
         for k in range(24 if thorough else 4):
@@ -168,8 +171,10 @@ def run(ctx):
                 o = r.t.objs[r.inst[cur]]
                 own = getattr(o, "outbound_message", b"")
                 valid = G.Base.scalarmult(5 + k).to_bytes()
-                if l == "start":
-                    r.start(cur, mp.stream_for(g, ctx.rng.randrange(G.order()), redraws=k % 2))
+                if l in ("start", "start_fail"):
+                    # start_fail: the entropy function raises - at once, or (integer groups, k odd) after a rejected draw
+                    r.start(cur, mp.stream_for(g, ctx.rng.randrange(G.order()), redraws=k % 2),
+                            fail_after=None if l == "start" else k % 2 if g != "Ed25519" else 0)
                 elif l == "serialize":
                     r.serialize(cur)
                 elif l == "restore":
